@@ -153,7 +153,11 @@ class Region(object):
         """
         if depth not in self.pixeldict:
             self.pixeldict[depth] = set()
-        self.pixeldict[depth].update(set(pix))
+        try:
+            pix = set(pix)
+        except TypeError:
+            pix = set((pix,))  # a single pixel number
+        self.pixeldict[depth].update(pix)
         # any change invalidates the cached deepest-level representation
         self.demoted = set()
         if renorm:
